@@ -62,7 +62,7 @@ def main():
             try: os.remove(os.path.join(wt, d))
             except FileNotFoundError: pass
 
-    demo_cmd = "go test -count=1 -vet=off -timeout 300s " + " ".join("./" + p + "/" for p in pkgs)
+    demo_cmd = "go test -count=1 -vet=off -timeout 300s " + os.environ.get("DEMO_FLAGS", "") + " " + " ".join("./" + p + "/" for p in pkgs)
     # 1. clean + demo
     clean(wt); put_demo()
     rc, out = run(demo_cmd, wt)
